@@ -368,6 +368,11 @@ type c18Rec struct {
 	exit         int
 }
 
+// c18Budget: step budget for the in-process runs of one case; the original runs under the default, the
+// variants under ten times what the original needed (redundant parentheses and dead code add steps).
+var c18Budget int64 = 300000
+var c18LastSteps int64
+
 func c18Observe(c *Ctx, src, stdin string, cli bool, back map[string]string) (*c18Rec, bool) {
 	var o *Obs
 	if cli {
@@ -381,7 +386,8 @@ func c18Observe(c *Ctx, src, stdin string, cli bool, back map[string]string) (*c
 			o.Panic = firstPanicLine(o.Stderr) + " ||"
 		}
 	} else {
-		o = RunLib(src, RunOpts{MaxSteps: 300000, Stdin: stdin})
+		o = RunLib(src, RunOpts{MaxSteps: c18Budget, Stdin: stdin})
+		c18LastSteps = o.Steps
 	}
 	if o.Budget != "" {
 		return nil, false // unbounded program: says nothing here
@@ -418,7 +424,11 @@ func c18Observe(c *Ctx, src, stdin string, cli bool, back map[string]string) (*c
 func c18Judge(c *Ctx, cs *Case) {
 	c.Begin(cs)
 	cli := cs.Mode == "cli"
+	c18Budget = 300000
 	base, ok := c18Observe(c, cs.Src, cs.Stdin, cli, nil)
+	if ok && !cli && 10*c18LastSteps+10000 > c18Budget {
+		c18Budget = 10*c18LastSteps + 10000
+	}
 	if !ok {
 		c.Count("skipped_unbounded_or_abnormal", 1)
 		return
@@ -513,6 +523,20 @@ func c18Case(c *Ctx, r *Rng, gen, src, stdin string) *Case {
 	return cs
 }
 
+// c18DeepPrograms: programs that recurse a few thousand calls deep (a transform must not change how deep a program may go)
+func c18DeepPrograms() []string {
+	el := make([]string, 2200)
+	for i := range el {
+		el[i] = fmt.Sprint((i*7919)%10007)
+	}
+	return []string{
+		Lines(Fun("sum", "n", " "+If("n == 0", "{ "+Ret("0")+" }")+" "+Ret("n + sum(n - 1)")+" "), Print("sum(3000)"), Print("sum(10)")),
+		Lines(Var("xs", "["+strings.Join(el, ", ")+"]"), Fun("mx", "i", " "+If("i == "+BI("len", "xs")+" - 1", "{ "+Ret("xs[i]")+" }")+" "+Var("rest", "mx(i + 1)")+" "+If("xs[i] > rest", "{ "+Ret("xs[i]")+" }")+" "+Ret("rest")+" "), Print("mx(0)")),
+		Lines(Fun("down", "n", " "+If("n == 0", "{ "+Ret("1 / 0")+" }")+" "+Ret("1 + down(n - 1) * 1")+" "), Print(`"start"`), Print("down(2300)"), Print(`"AFTER"`)),
+		Lines(Fun("even", "n", " "+If("n == 0", "{ "+Ret(True())+" }")+" "+Ret("odd(n - 1)")+" "), Fun("odd", "n", " "+If("n == 0", "{ "+Ret(False())+" }")+" "+Ret("even(n - 1)")+" "), Print("even(3000)"), Print("odd(2999)")),
+	}
+}
+
 func c18Run(c *Ctx) {
 	r := c.Rand("transforms")
 	files, _ := filepath.Glob(filepath.Join(c.Repo, "example", "*.bn"))
@@ -540,6 +564,7 @@ func c18Run(c *Ctx) {
 		}
 	}
 	hand := append(c03Handwritten(), c04Handwritten()...)
+	hand = append(hand, c18DeepPrograms()...)
 	for _, src := range hand {
 		cs := c18Case(c, r, "handwritten-programs", src, "")
 		if cs == nil {
